@@ -97,10 +97,10 @@ def make(shape: Dict[str, Any]) -> Any:
         if ctx.twin:
             return
         # ---- afterwards: the instance still works
-        loop.advance_by(ctx.int('gap2', 0, shape.get('gap_max', 1200)) if timing == 'symbolic' else 700)
+        loop.advance_by(ctx.int('gap2', 0, shape.get('gap_max', 1200)) if timing == 'symbolic' else shape.get('gap2', 700))
         n_before = len(env.sent_log(zc))
         try:
-            proto.datagram_received(cq, ('10.0.0.7', 5353))
+            proto.datagram_received(cq, ('10.0.0.9', 5353))  # same sender as the test datagram (joins whatever it left deferred)
             proto.datagram_received(ca, ('10.0.0.8', 5353))
             loop.advance_by(1500)
         except Exception as e:
@@ -245,6 +245,9 @@ def obligations(tier: str) -> List[Obligation]:
     for name, counts, flags, lead, p in templates:
         shape = {'payload': p, 'counts': counts, 'flags': flags, 'lead_question': lead, 'timing': 'fixed'}
         obs.append(Obligation(f'survive[{name};payload={p}]', make(shape), 'survive', shape, timeout=280 if tier == 'quick' else 1500))
+        if name == 'truncated-query':
+            shape3 = dict(shape, gap2=200)  # the next valid query of the same sender arrives while the truncated one is still held
+            obs.append(Obligation(f'survive[{name};payload={p};follow-up-within-hold]', make(shape3), 'survive', shape3, timeout=280 if tier == 'quick' else 1500))
         if name in ('query-question', 'response-answer'):
             shape2 = {'payload': 1, 'counts': counts, 'flags': flags, 'lead_question': lead, 'timing': 'symbolic', 'gap_max': 1200}
             obs.append(Obligation(f'survive[{name};payload=1;symbolic-timing]', make(shape2), 'survive-timing', shape2, timeout=280 if tier == 'quick' else 1500))
